@@ -255,7 +255,7 @@ def case_proj(hist):
         if not close(yk.get_edges().proj_data, edges_of(expY), TOL_EXACT):
             v.append(V("proj/aux-recomputed/Polygon.get_edges", "get_edges() differs from the edges of the oracle image"))
     Wk = W[k]
-    key = repr((root["d"], cls, shape, root["cx"], tuple(np.round(Wk.flatten(), 6).tolist())))
+    key = repr((root["d"], cls, shape, root["cx"], tuple((np.round(Wk.flatten(), 6) + 0.0).tolist())))
     return {"v": v, "t": t, "o": repr(tuple(np.round(np.asarray(expY).flatten()[:4], 6).tolist())),
             "nt": k >= 1 and not np.allclose(Wk, np.eye(n)), "key": key,
             "ops": [] if v else list(PROJ_GENS)}
@@ -278,8 +278,8 @@ def refl_matrix(n):
 def make_iso(name, n, seed):
     from geometry_tools import hyperbolic as H
     if name in ("org0", "org1"):
-        pts = lattice.klein_points(n, m_generic=6, seed=seed)
-        k = pts[-2] if name == "org0" else pts[-5]
+        pts = hyp_alphabet_points(n, seed)[0]
+        k = pts[-2] if name == "org0" else pts[-7]
         return H.Point(np.array(k, dtype=float), model="klein").origin_to()
     if name == "rot":
         return H.Isometry.standard_rotation(0.7, dimension=n)
@@ -296,10 +296,14 @@ def make_iso(name, n, seed):
     raise ValueError(name)
 
 
+_PTS = {}
+
+
 def hyp_alphabet_points(n, seed):
-    K = lattice.klein_points(n, m_generic=16, seed=seed)
-    I = lattice.ideal_dirs(n, m_generic=8, seed=seed)
-    return K, I
+    if (n, seed) not in _PTS:       # pure function of (n, seed); cached only for speed
+        _PTS[(n, seed)] = (lattice.klein_points(n, m_generic=16, seed=seed),
+                           lattice.ideal_dirs(n, m_generic=8, seed=seed))
+    return _PTS[(n, seed)]
 
 
 def timelike_row(k):
@@ -549,7 +553,7 @@ def case_hyp(hist):
         cmp_rows(v, "hyp/inverse", cls, inv @ Y[k], Y[k - 1].proj_data, Y[k - 1].aux_data)
         cmp_rows(v, "hyp/inverse-product", cls, (inv @ Ts[k - 1]) @ Y[k - 1], Y[k - 1].proj_data, Y[k - 1].aux_data)
         t += 4
-    key = repr((n, cls, shape, tuple(np.round(Rw[k].flatten(), 5).tolist())))
+    key = repr((n, cls, shape, tuple((np.round(Rw[k].flatten(), 5) + 0.0).tolist())))
     return {"v": v, "t": t, "o": repr(tuple(np.round(np.asarray(expY).flatten()[:3], 5).tolist())),
             "nt": k >= 1 and not np.allclose(Rw[k], np.eye(n + 1)), "key": key,
             "ops": [] if v else hyp_gens(n)}
